@@ -237,7 +237,8 @@ def explore(invoke, annexed, max_depth, kinds, executor, max_states=None,
     """BFS over accepted transformation histories of length <= max_depth.
 
     Returns a dict with counters, outcome classes and violation records."""
-    from psyclone.errors import GenerationError, InternalError
+    from psyclone.errors import (GenerationError, InternalError,
+                                 PSycloneError)
     from psyclone.psyir.transformations import TransformationError
     spec = invoke.spec
     skey = spec_key(spec)
@@ -272,7 +273,7 @@ def explore(invoke, annexed, max_depth, kinds, executor, max_states=None,
             unviewable = False
             try:
                 view_of(sched)
-            except (GenerationError, InternalError) as err:
+            except PSycloneError as err:
                 unviewable = True
             res["states"] += 1
             htext = trans.history_text(hist)
@@ -288,6 +289,12 @@ def explore(invoke, annexed, max_depth, kinds, executor, max_states=None,
                     code = None
                 except InternalError as err:
                     bump("gen-internal-error:" + _short(str(err)))
+                    code = None
+                except PSycloneError as err:
+                    # e.g. VisitorError wrapping the GenerationError of a
+                    # directive applied twice to the same loop
+                    bump(f"gen-refused-{type(err).__name__}:"
+                         + _short(str(err)))
                     code = None
                 if code is not None:
                     if code in seen_code:
@@ -323,7 +330,7 @@ def explore(invoke, annexed, max_depth, kinds, executor, max_states=None,
                 except TransformationError:
                     bump("refused:" + oper[0])
                     continue
-                except (GenerationError, InternalError) as err:
+                except PSycloneError as err:
                     bump(f"refused-{type(err).__name__}:" + oper[0])
                     continue
                 except ValueError:
@@ -331,7 +338,7 @@ def explore(invoke, annexed, max_depth, kinds, executor, max_states=None,
                     continue
                 try:
                     view = view_of(sched2)
-                except (GenerationError, InternalError) as err:
+                except PSycloneError as err:
                     # accepted, but code generation will refuse: the state
                     # is kept (its psy.gen outcome is recorded) but not
                     # compared with other schedules
